@@ -26,15 +26,33 @@ pub fn gen_safe_name(rng: &mut Rng) -> String {
     }
 }
 
+thread_local! {
+    static ALLOW_QUOTES: std::cell::Cell<bool> = const { std::cell::Cell::new(true) };
+}
+
+/// feature mask: double quotes and backslashes inside generated string values
+pub fn set_allow_quotes(b: bool) {
+    ALLOW_QUOTES.with(|c| c.set(b));
+}
+pub fn allow_quotes() -> bool {
+    ALLOW_QUOTES.with(|c| c.get())
+}
+
 pub fn gen_text(rng: &mut Rng, hostile: bool) -> String {
     let n = rng.range(0, 6);
     let mut s = String::new();
+    let quotes = allow_quotes();
     for i in 0..n {
         if i > 0 && rng.chance(2, 3) {
             s.push(' ');
         }
         if hostile && rng.chance(1, 3) {
-            s.push_str(rng.s(HOSTILE_CHARS));
+            let h = rng.s(HOSTILE_CHARS);
+            if !quotes && (h.contains('"') || h.contains('\\')) {
+                s.push_str("'");
+            } else {
+                s.push_str(h);
+            }
         } else {
             s.push_str(rng.s(WORDS));
         }
